@@ -288,6 +288,131 @@ def VHosted.step (c : Cfg) (s : VHosted) : VOp → VHosted × List Cb
   | .reconnect =>
     if s.fin.isSome && !c.tou then ({ dl := .unlinked, val := none, fin := none }, []) else (s, [])
 
+/-! ### `run_io` with its `Mode` (client tasks) and the handle side of a hosted channel
+
+Both client tasks run `loop { match mode { Mode::ReadWrite => .., Mode::Read => .. } }`. `MClient.step` / `VClient.step`
+above are the `Mode::ReadWrite` arm; `stepRO` below is the `Mode::Read` loop, a *separate piece of code* that calls `on_read`
+itself (value: with `events_when_not_synced`, `terminate_on_unlinked` passed positionally). The mode switches when the
+stream of local writes ends (the handle — an `mpsc::Sender` — was dropped) and, for the value task only, when a write
+fails. A hosted channel has no second loop: its handle owns the stop trigger, so dropping it makes `stop_rx` resolve to
+`Err` (`*stop_rx = None`, reads continue through the plain `select_next.await` branch, `can_restart()` becomes false)
+and ends the write stream (`WriteStreamTerminated`); `handle.stop()` closes the input like an EOF. -/
+
+/-- `enum Mode { ReadWrite, Read }` -/
+inductive Mode
+  | readWrite | read
+  deriving DecidableEq, Repr
+
+/-- ops of the base alphabet plus the handle side: `dropHandle` = the write handle is dropped, `closeOut` = the reader of
+the task's output channel is dropped (client), `stop` = `handle.stop()` (hosted) -/
+inductive IoOp (α : Type)
+  | op (o : α) | dropHandle | closeOut | stop
+  deriving DecidableEq, Repr
+
+/-- map `run_io`, `Mode::Read`:
+`while let Some(result) = framed_read.next().await { match on_read(state, &mut lifecycle, result?, config).await {..} } break Ok(())` -/
+def MClient.stepRO (c : Cfg) (s : MClient) : MOp → MClient × List Cb
+  | .note n =>
+    ({ st := (cRead c s.st n).1, fin := if (cRead c s.st n).2.2 then some .ok else none }, (cRead c s.st n).2.1)
+  | .bad => ({ s with fin := some .badFrame }, [])      -- `result?`
+  | .eof => ({ s with fin := some .ok }, [])             -- the `while let` ends
+  | .write _ => (s, [])                                   -- `set_stream` is never polled again
+  | .reconnect => (s, [])
+
+structure MClientIO where
+  core : MClient := {}
+  mode : Mode := .readWrite
+  deriving DecidableEq, Repr
+
+def MClientIO.step (c : Cfg) (s : MClientIO) : IoOp MOp → MClientIO × List Cb
+  | .op o =>
+    if s.core.fin.isSome then (s, []) else
+    match s.mode with
+    | .readWrite => ({ s with core := (s.core.step c o).1 }, (s.core.step c o).2)
+    | .read => ({ s with core := (s.core.stepRO c o).1 }, (s.core.stepRO c o).2)
+  | .dropHandle =>
+    -- `IoEvent::Write(None) => mode = Mode::Read`
+    if s.core.fin.isSome then (s, []) else ({ s with mode := .read }, [])
+  | .closeOut => (s, [])     -- the result of `framed.flush()` is discarded, a failed `feed` is only logged
+  | .stop => (s, [])
+
+/-- value `run_io`, `Mode::Read`:
+`while let Some(result) = framed_read.next().await { match on_read(state, &mut lifecycle, result?, events_when_not_synced, terminate_on_unlinked).await {..} } return Ok(())`;
+`on_read`'s parameters are `(.., events_when_not_synced: bool, terminate_on_unlinked: bool)` = the fields of `Cfg` in order -/
+def VClient.stepRO (c : Cfg) (s : VClient) : VOp → VClient × List Cb
+  | .note n =>
+    ({ st := (vcRead { ews := c.ews, tou := c.tou } s.st n).1, fin := (vcRead { ews := c.ews, tou := c.tou } s.st n).2.2 },
+      (vcRead { ews := c.ews, tou := c.tou } s.st n).2.1)
+  | .bad => ({ s with fin := some .badFrame }, [])
+  | .eof => ({ s with fin := some .ok }, [])
+  | .write _ => (s, [])
+  | .reconnect => (s, [])
+
+structure VClientIO where
+  core : VClient := {}
+  mode : Mode := .readWrite
+  /-- the reader of the output byte channel was dropped: `poll_write` fails with `BrokenPipe`, `poll_flush` of an empty buffer does not -/
+  outClosed : Bool := false
+  /-- a frame was fed to `framed` after that: every later `framed.flush()` fails -/
+  unflushed : Bool := false
+  deriving DecidableEq, Repr
+
+def VClientIO.step (c : Cfg) (s : VClientIO) : IoOp VOp → VClientIO × List Cb
+  | .op o =>
+    if s.core.fin.isSome then (s, []) else
+    match s.mode with
+    | .readWrite =>
+      match o with
+      | .write _ =>
+        -- `Either::Left((Some(set), Some(Ok(_)) | None)) => write(..)` (`feed` only buffers) / `Either::Left(_) => mode = Mode::Read`
+        -- (the flush joined with `set_stream.next()` had failed; the value is dropped)
+        if s.outClosed && s.unflushed then ({ s with mode := .read }, []) else ({ s with unflushed := s.outClosed }, [])
+      | _ => ({ s with core := (s.core.step c o).1 }, (s.core.step c o).2)
+    | .read => ({ s with core := (s.core.stepRO c o).1 }, (s.core.stepRO c o).2)
+  | .dropHandle =>
+    -- `set_stream.next()` = `None`: `Either::Left(_) => mode = Mode::Read`
+    if s.core.fin.isSome then (s, []) else ({ s with mode := .read }, [])
+  | .closeOut => if s.core.fin.isSome then (s, []) else ({ s with outClosed := true }, [])
+  | .stop => (s, [])
+
+structure MHostedIO where
+  core : MHosted := {}
+  stopRx : Bool := true        -- `stop_rx.is_some()`
+  deriving DecidableEq, Repr
+
+def MHostedIO.step (c : Cfg) (s : MHostedIO) : IoOp MOp → MHostedIO × List Cb
+  | .op .reconnect =>
+    -- `can_restart() = !terminate_on_unlinked && stop_rx.is_some()`
+    if s.stopRx then ({ s with core := (s.core.step c .reconnect).1 }, []) else (s, [])
+  | .op o => ({ s with core := (s.core.step c o).1 }, (s.core.step c o).2)
+  | .dropHandle =>
+    -- `triggered_result` is `Err`: `*stop_rx = None; select_next.await`; the write stream ends (`WriteStreamTerminated`)
+    if s.core.fin.isSome then (s, []) else ({ s with stopRx := false }, [])
+  | .stop =>
+    -- `triggered_result.is_ok()`: `*stop_rx = None; *receiver = None`, a synthetic `Unlinked` if linked
+    -- (`!s.stopRx`: the handle was dropped before, there is nothing left to call `stop()` on)
+    if s.core.fin.isSome || !s.stopRx then (s, []) else
+    if s.core.dl.isLinked then ({ core := { dl := dlAfterUnlinked c, map := [], fin := some .ok }, stopRx := false }, [.unlinked])
+    else ({ core := { s.core with fin := some .ok }, stopRx := false }, [])
+  | .closeOut => (s, [])
+
+structure VHostedIO where
+  core : VHosted := {}
+  stopRx : Bool := true
+  deriving DecidableEq, Repr
+
+def VHostedIO.step (c : Cfg) (s : VHostedIO) : IoOp VOp → VHostedIO × List Cb
+  | .op .reconnect =>
+    if s.stopRx then ({ s with core := (s.core.step c .reconnect).1 }, []) else (s, [])
+  | .op o => ({ s with core := (s.core.step c o).1 }, (s.core.step c o).2)
+  | .dropHandle =>
+    if s.core.fin.isSome then (s, []) else ({ s with stopRx := false }, [])
+  | .stop =>
+    if s.core.fin.isSome || !s.stopRx then (s, []) else
+    if s.core.dl.isLinked then ({ core := { dl := dlAfterUnlinked c, val := none, fin := some .ok }, stopRx := false }, [.unlinked])
+    else ({ core := { s.core with fin := some .ok }, stopRx := false }, [])
+  | .closeOut => (s, [])
+
 /-! ### Line protocol -/
 
 def showMap (m : AMap) : String :=
@@ -352,11 +477,19 @@ def parseVOp (ws : List String) : Option VOp :=
   | _ => none
 
 inductive Sys
-  | mc (c : Cfg) (s : MClient)
-  | mh (c : Cfg) (s : MHosted)
-  | vc (c : Cfg) (s : VClient)
-  | vh (c : Cfg) (s : VHosted)
+  | mc (c : Cfg) (s : MClientIO)
+  | mh (c : Cfg) (s : MHostedIO)
+  | vc (c : Cfg) (s : VClientIO)
+  | vh (c : Cfg) (s : VHostedIO)
   deriving Repr
+
+/-- `drop-handle | close-out | stop`, else the base alphabet -/
+def parseIo {α : Type} (base : List String → Option α) (ws : List String) : Option (IoOp α) :=
+  match ws with
+  | ["drop-handle"] => some .dropHandle
+  | ["close-out"] => some .closeOut
+  | ["stop"] => some .stop
+  | _ => (base ws).map .op
 
 def parseBit : String → Option Bool
   | "0" => some false
@@ -384,26 +517,34 @@ def outOf (finBefore finAfter : Option Fin) (cbs : List Cb) : String :=
 def Sys.line (s : Sys) (ws : List String) : Sys × String :=
   match s with
   | .mc c st =>
-    match parseMOp ws with
-    | some .reconnect => (s, "bad-op")
-    | some op => (.mc c (st.step c op).1, outOf st.fin (st.step c op).1.fin (st.step c op).2)
+    match parseIo parseMOp ws with
+    | some (.op .reconnect) => (s, "bad-op")
+    | some .stop => (s, "bad-op")
+    | some op => (.mc c (st.step c op).1, outOf st.core.fin (st.step c op).1.core.fin (st.step c op).2)
     | none => (s, "bad-op")
   | .vc c st =>
-    match parseVOp ws with
-    | some .reconnect => (s, "bad-op")
-    | some op => (.vc c (st.step c op).1, outOf st.fin (st.step c op).1.fin (st.step c op).2)
+    match parseIo parseVOp ws with
+    | some (.op .reconnect) => (s, "bad-op")
+    | some .stop => (s, "bad-op")
+    | some op => (.vc c (st.step c op).1, outOf st.core.fin (st.step c op).1.core.fin (st.step c op).2)
     | none => (s, "bad-op")
   | .mh c st =>
-    match parseMOp ws with
-    | some .reconnect =>
-      if st.fin.isSome then (.mh c (st.step c .reconnect).1, if c.tou then "refused" else "ok") else (s, "bad-op")
-    | some op => (.mh c (st.step c op).1, outOf st.fin (st.step c op).1.fin (st.step c op).2)
+    match parseIo parseMOp ws with
+    | some (.op .reconnect) =>
+      if st.core.fin.isSome then
+        (.mh c (st.step c (.op .reconnect)).1, if c.tou || !st.stopRx then "refused" else "ok")
+      else (s, "bad-op")
+    | some .closeOut => (s, "bad-op")
+    | some op => (.mh c (st.step c op).1, outOf st.core.fin (st.step c op).1.core.fin (st.step c op).2)
     | none => (s, "bad-op")
   | .vh c st =>
-    match parseVOp ws with
-    | some .reconnect =>
-      if st.fin.isSome then (.vh c (st.step c .reconnect).1, if c.tou then "refused" else "ok") else (s, "bad-op")
-    | some op => (.vh c (st.step c op).1, outOf st.fin (st.step c op).1.fin (st.step c op).2)
+    match parseIo parseVOp ws with
+    | some (.op .reconnect) =>
+      if st.core.fin.isSome then
+        (.vh c (st.step c (.op .reconnect)).1, if c.tou || !st.stopRx then "refused" else "ok")
+      else (s, "bad-op")
+    | some .closeOut => (s, "bad-op")
+    | some op => (.vh c (st.step c op).1, outOf st.core.fin (st.step c op).1.core.fin (st.step c op).2)
     | none => (s, "bad-op")
 
 def machineStep (s : Option Sys) (line : String) : Option Sys × String :=
